@@ -4596,6 +4596,17 @@ CS104_Slave_stop(CS104_Slave self)
 #endif /* (CONFIG_USE_THREADS == 1) */
 
                         self->openConnections--;
+
+                        /* the slot is free again: a restarted server must not release it a second time */
+#if (CONFIG_USE_SEMAPHORES == 1)
+                        Semaphore_wait(connection->stateLock);
+#endif
+
+                        connection->isUsed = false;
+
+#if (CONFIG_USE_SEMAPHORES == 1)
+                        Semaphore_post(connection->stateLock);
+#endif
                     }
 
                 }
